@@ -137,28 +137,6 @@ C11_EffectNearLimit ==
 C11_EorKept == Completed => EorKeptP(ei, exp, view, eo)
 
 ---------------------------------------------------------------------------
-(* KNOWN FINDING KF-C11-v4-noroom (findings_proposed/C11-v4-noroom.md): weakened invariants that
-   tolerate exactly its history shape.  packerV4.pack gives a classic IPv4 attribute group
-   maxNLRIs = (limit - 23 - attrBytes) / (5 [+4]) NLRI per message:
-     quotient < 0  => make([]PathNLRI, 0, max) panics           (C11_SenderUndisturbed)
-     quotient = 0  => the group is silently left out: a route that fits by less than one
-                      worst-case NLRI is lost (C11_EffectNearLimit), one that does not fit is
-                      skipped WITHOUT being reported (C11_OversizeSkipped) *)
-Survives(i) == ~\E j \in (i+1)..Len(changes) :
-                    IsRoute(changes[j]) /\ Key(sess, changes[j]) = Key(sess, changes[i])
-C11_SenderUndisturbed_KF ==
-  panic = "" \/ (/\ panic = "runtime error: makeslice: cap out of range"
-                 /\ \E i \in 1..Len(changes) : V4Panics(sess, changes[i]) /\ Survives(i))
-C11_EffectNearLimit_KF ==
-  Completed => \A k \in DOMAIN exp : NearLimit(sess, exp[k]) =>
-     \/ Same(view[k], exp[k])
-     \/ (V4NoRoom(sess, changes[exp[k].idx]) /\ view[k].st = "prior")
-     \/ k \in grown
-C11_OversizeSkipped_KF ==
-  Completed => \A k \in DOMAIN exp :
-     Oversize(sess, exp[k]) => /\ (k \in reported \/ V4NoRoom(sess, changes[exp[k].idx]))
-                               /\ ~(view[k].st = "route" /\ view[k].dig = exp[k].dig)
-
 (* KNOWN FINDING KF-C11-as2-growth (= findings_proposed/C08-as2-overflow.md, found by C08): the
    packer fills messages to the limit computed on the 4-octet form of the attributes; send() then
    rewrites them for a 2-octet-AS peer, AS4_PATH is added, Serialize refuses the message and all
@@ -168,6 +146,9 @@ C11_Fits_KF == FitsMsg(sess, own, lastmsg) \/ As2Pushed(lastmsg)
 C11_Effect_KF ==
   Completed => /\ strays = {}
                /\ \A k \in DOMAIN exp : Roomy(sess, exp[k]) => (Same(view[k], exp[k]) \/ k \in grown)
+
+C11_EffectNearLimit_KF ==
+  Completed => \A k \in DOMAIN exp : NearLimit(sess, exp[k]) => (Same(view[k], exp[k]) \/ k \in grown)
 
 (* what TLC prints of a state in a counterexample (the full state holds the whole input list) *)
 Compact == [l |-> l, nmsg |-> nmsg, done |-> done, panic |-> panic, sess |-> sess, strays |-> strays,
